@@ -14,7 +14,7 @@
      valid_hops       every description string is accepted by the parser
      acyclic          no id refers (transitively) to itself *)
 From Coq Require Import ZArith List Permutation.
-From AK Require Import Common.Err C14.Model C14.LemSpec C14.LemLoop C14.LemHist C14.LemFlat C14.Lemmas.
+From AK Require Import Common.Err C14.Model C14.World C14.LemSpec C14.LemLoop C14.LemHist C14.LemFlat C14.Lemmas C14.LemWorld.
 Import ListNotations.
 Open Scope Z_scope.
 
@@ -146,6 +146,53 @@ Theorem flatten_nested :
 Proof. exact (conj flatten_group (conj flatten_nodup (conj flatten_idem new_conf_flat))). Qed.
 Print Assumptions flatten_nested.
 
+(* ------------------------------------------------------------------ the module state (C14/World.v)
+   w_init classes   the state after `import ak.color`: the default configuration is the global
+                    one, global_palette is the first synced palette; class 0 is GlobalPalette
+   w_run w ops      API calls: ColorsConfig(...), set_global_colors_config, Cls(synced=True),
+                    conf.add_new_items, Cls.register_in_colors_conf, Cls(conf), conf.get_palette();
+                    classes register their SYNTAX_DEFAULTS (PARENT_PALETTES first) in a configuration
+                    when they start to use it, a modification of the global configuration
+                    re-syncs - recursively - all the synced palettes *)
+
+(* whenever the calls return: every synced palette object carries exactly the formatters
+   the global configuration gives NOW for its accessors, and a GlobalPalette-like one
+   points to the global configuration - whatever was installed, registered or created,
+   in whatever order *)
+Theorem synced_current : forall classes ops w0 w,
+  w_init classes = Ok w0 -> w_run w0 ops = Ok w ->
+  forall j sp, nth_error (w_synced w) j = Some sp ->
+    exists pc wc, nth_error (w_classes w) (sp_cls sp) = Some pc /\
+                  nth_error (w_confs w) (w_global w) = Some wc /\
+                  sp_attrs sp = map (get_color (wc_conf wc)) (pc_acc pc) /\
+                  sp_ptr sp = w_global w.
+Proof. exact synced_current_l. Qed.
+Print Assumptions synced_current.
+
+(* every configuration object of such a session is what a history of registration batches
+   makes of an empty configuration: the theorems above (resolve_correct, order_independent,
+   explicit_wins, ...) speak about each of them *)
+Theorem world_confs_are_histories : forall classes ops w0 w,
+  w_init classes = Ok w0 -> w_run w0 ops = Ok w ->
+  forall i wc, nth_error (w_confs w) i = Some wc -> exists nc h, run_hops (conf0 nc) h = Ok (wc_conf wc).
+Proof. exact world_confs_histories_l. Qed.
+Print Assumptions world_confs_are_histories.
+
+(* together: the accessor attributes of every synced palette are the resolution of the
+   description set of the global configuration *)
+Theorem synced_resolve_correct : forall classes ops w0 w,
+  w_init classes = Ok w0 -> w_run w0 ops = Ok w ->
+  forall j sp, nth_error (w_synced w) j = Some sp ->
+    exists pc wc nc h,
+      nth_error (w_classes w) (sp_cls sp) = Some pc /\
+      nth_error (w_confs w) (w_global w) = Some wc /\
+      run_hops (conf0 nc) h = Ok (wc_conf wc) /\
+      sp_attrs sp = map (get_color (wc_conf wc)) (pc_acc pc) /\
+      (valid_hops h -> acyclic (union_hops [] h) ->
+       forall id, spec_color nc (union_hops [] h) id (get_color (wc_conf wc) id)).
+Proof. exact synced_resolved_l. Qed.
+Print Assumptions synced_resolve_correct.
+
 (* deciding the hypotheses of the theorems above on concrete histories *)
 Theorem hypotheses_decidable :
   (forall h, valid_hopsb h = true -> valid_hops h) /\ (forall S, acyclicb S = true -> acyclic S).
@@ -185,3 +232,30 @@ Example ex_cycle :
   acyclicb (union_hops [] [HReg [([65], [66]); ([66], [65])]]) = false.
 Proof. vm_compute. split; reflexivity. Qed.
 Print Assumptions ex_cycle.
+
+(* a session: class 1 (accessor APP.HL, no defaults) and class 2 (SYNTAX_DEFAULTS {COMP.ACCENT: RED})
+   have synced palettes; a configuration {KEYWORD: COMP.ACCENT:bold, APP.HL: COMP.ACCENT:/BLUE} is
+   created and installed as the global one.  The calls return, and global_palette.keyword (the third
+   accessor of palette 0) is RED+bold although COMP.ACCENT is registered only while the palettes
+   are being switched *)
+Definition ex_accent : str := [67;79;77;80;46;65;67;67;69;78;84].
+Definition ex_hl : str := [65;80;80;46;72;76].
+Definition ex_classes : list pclass :=
+  [mk_pclass None [] [dflt_id; ex_hl] false;
+   mk_pclass (Some [(ex_accent, VStr [82;69;68])]) [] [dflt_id; ex_accent] false].
+Definition ex_conf : list (str * cval) :=
+  [([75;69;89;87;79;82;68], VStr (ex_accent ++ [58;98;111;108;100]));
+   (ex_hl, VStr (ex_accent ++ [58;47;66;76;85;69]))].
+Definition ex_wops : list wop := [WSynced 1; WSynced 2; WNew false ex_conf None; WSetGlobal (Some 1%nat)].
+
+Example ex_world :
+  match bind (w_init ex_classes) (fun w0 => w_run w0 ex_wops) with
+  | Ok w => w_global w = 1%nat /\
+            map sp_attrs (w_synced w) =
+              [[[]; [[51;50]; [49]]; [[51;49]; [49]]; [[51;50]; [49]]; [[51;49]]; [[51;49]; [49]]];
+               [[]; [[51;49]; [52;52]]];
+               [[]; [[51;49]]]]
+  | Err _ => False
+  end.
+Proof. vm_compute. split; reflexivity. Qed.
+Print Assumptions ex_world.
